@@ -133,30 +133,39 @@ theorem phaseUR_frame (s : St) (t : Tick) :
     (phaseUR s t).1.kind = s.kind ∧ (phaseUR s t).1.maxSend = s.maxSend ∧
     (phaseUR s t).1.upstream = s.upstream ∧ (phaseUR s t).1.recvC = s.recvC ∧
     (phaseUR s t).1.sentC = s.sentC ∧ (phaseUR s t).1.sentU = s.sentU ∧
-    (phaseUR s t).1.mustFlush = s.mustFlush ∧
-    ∃ seg, (phaseUR s t).1.recvU = s.recvU ++ seg ∧ D (phaseUR s t).1 = D s ++ seg ∧
-      (phaseUR s t).1.queuedC.flatten = s.queuedC.flatten ++ seg ∧
-      ((phaseUR s t).1.queuedC = s.queuedC ∨
-        (t.uRecv = .data seg ∧ seg ≠ [] ∧ (phaseUR s t).1.queuedC = s.queuedC ++ [seg])) := by
+    (phaseUR s t).1.mustFlush = s.mustFlush := by
   unfold phaseUR
   split
   · cases hr : Conn.recv t.uRecv with
-    | none_ => simp; exact ⟨[], by simp⟩
-    | exc o => cases o <;> simp <;> exact ⟨[], by simp⟩
-    | seg b =>
-      simp
-      refine ⟨b, rfl, by simp [D, Conn.queue], by simp, Or.inr ?_⟩
-      unfold Conn.recv at hr
-      cases hu : t.uRecv with
-      | data d =>
-        rw [hu] at hr
-        simp at hr
-        split at hr
-        · cases hr
-        · rename_i hne
-          injection hr with hr; subst hr
-          exact ⟨rfl, by simpa using hne, rfl⟩
-      | _ => rw [hu] at hr; simp at hr
-  · simp; exact ⟨[], by simp⟩
+    | none_ => simp
+    | exc o => cases o <;> simp
+    | seg b => simp
+  · simp
+
+/-- upstream read phase: the segment read (if any) is appended to the received
+    history and to the client queue, as received -/
+theorem phaseUR_seg (s : St) (t : Tick) :
+    ∃ seg, (phaseUR s t).1.recvU = s.recvU ++ seg ∧ D (phaseUR s t).1 = D s ++ seg ∧
+      (phaseUR s t).1.queuedC.flatten = s.queuedC.flatten ++ seg ∧
+      (((phaseUR s t).1.queuedC = s.queuedC ∧ (phaseUR s t).1.client = s.client) ∨
+        (t.uRecv = .data seg ∧ seg ≠ [] ∧ (phaseUR s t).1.queuedC = s.queuedC ++ [seg] ∧
+          (phaseUR s t).1.client = s.client.queue seg)) := by
+  unfold phaseUR
+  split
+  · cases hu : t.uRecv with
+    | data d =>
+      cases hd : d.isEmpty with
+      | false =>
+        refine ⟨d, ?_⟩
+        have : d ≠ [] := by intro h; simp [h] at hd
+        simp [Conn.recv, hd, D, Conn.queue, this]
+      | true => exact ⟨[], by simp [Conn.recv, hd, D]⟩
+    | eof => exact ⟨[], by simp [Conn.recv, D]⟩
+    | reset => exact ⟨[], by simp [Conn.recv, D]⟩
+    | timedOut => exact ⟨[], by simp [Conn.recv, D]⟩
+    | osError => exact ⟨[], by simp [Conn.recv, D]⟩
+    | blocking => exact ⟨[], by simp [Conn.recv, D]⟩
+    | sslWantRead => exact ⟨[], by simp [Conn.recv, D]⟩
+  · exact ⟨[], by simp [D]⟩
 
 end Px.Relay
